@@ -84,7 +84,14 @@ class SourceToSourceImportBlockTransformation(SourceToSourceTransformationBase):
 
     def pretty_print(self, params=None):
         params = ImportFormatParams(params)
-        return self.importset.pretty_print(params)
+        result = self.importset.pretty_print(params)
+        if (not result and self.input.startpos.colno != 1
+            and self.input.text.joined.endswith("\n")):
+            # The block shared its first line with another statement
+            # ("x = 1; import foo") and has become empty; keep that line
+            # terminated.
+            result = "\n"
+        return result
 
     def __repr__(self):
         return f"<SourceToSourceImportBlockTransformation {self.importset!r} @{hex(id(self))}>"
